@@ -163,4 +163,19 @@ SSTWire(set, NProps) ==
                 Cat([p \in 1..NProps |-> SSTElement(IF p = 1 THEN 3 ELSE 20, Lit([x \in 1..(16 + 4 * p) |-> 65 + p]))]
                     \o << SSTElement(32, SSTCert(set.entries[i], i)) >>)]),
          <<"u32le", 0>>, <<"u64le", 0>> >>)
+
+----------------------------------------------------------------------------
+(* dispatch on the format name; variant v == [strip, bfirst, nprops] *)
+WireOf(fmt, set, v) ==
+  CASE fmt = "crlset" -> CRLSetWire(set, 6375, v.strip)
+    [] fmt = "onecrl" -> OneCRLWire(set, v.strip, v.bfirst)
+    [] fmt = "sst"    -> SSTWire(set, v.nprops)
+ParsedOf(fmt, set) ==
+  CASE fmt = "crlset" -> CRLSetParsed(set)
+    [] fmt = "onecrl" -> OneCRLParsed(set)
+    [] fmt = "sst"    -> SSTParsed(set)
+AllowedOf(fmt, set, c) ==
+  CASE fmt = "crlset" -> CRLSetAllowed(set, c)
+    [] fmt = "onecrl" -> OneCRLAllowed(set, c)
+    [] fmt = "sst"    -> SSTAllowed(set, c)
 =============================================================================
